@@ -173,6 +173,7 @@ pub proof fn lemma_stamped_unread(ino: Inode, t: int, gran: int)
              '&& final(w).accessed(pv(path)))'),
             ('C05 C04:absence-is-reported-as-false',
              'old(w).solo ==> (r == Ok::<bool, Error>(false) ==> !old(w).files.contains_key(pv(path)) && final(w).same_fs(*old(w)) && final(w).hard_faults == old(w).hard_faults)'),
+            ('C15 C05:anything-but-a-hit-changes-nothing', '!(r == Ok::<bool, Error>(true)) ==> final(w).same_fs(*old(w))'),
             ('C04 C05:touch-reports-presence-truthfully',
              'old(w).solo && r.is_ok() && !old(w).dirs.contains(pv(path)) ==> r.unwrap() == old(w).files.contains_key(pv(path))'),
             ERR_UNCHANGED,
@@ -1244,6 +1245,10 @@ pub open spec fn write_frame(old: World, fin: World, base: PathV, name: Seq<u8>,
              '&& final(w).only_inode_changed(*old(w), old(w).files[%s], Inode { atime: final(w).inode_at(%s).atime, ..old(w).inode_at(%s) })'
              % (TARGET, TARGET, TARGET, TARGET, TARGET)),
             ('C05 C04:absence-is-reported-as-false', 'r == Ok::<bool, Error>(false) ==> !old(w).files.contains_key(%s) && final(w).same_fs(*old(w))' % TARGET),
+            ('C15 C09:touch-changes-nothing-but-the-access-time-of-the-entry-found',
+             'final(w).files == old(w).files && final(w).dirs == old(w).dirs && forall|i: InodeId| old(w).inodes.contains_key(i) ==> '
+             '#[trigger] final(w).inodes[i] == (Inode { atime: final(w).inodes[i].atime, ..old(w).inodes[i] }) '
+             '&& (final(w).inodes[i].atime != old(w).inodes[i].atime ==> old(w).files.contains_key(%s) && i == old(w).files[%s])' % (TARGET, TARGET)),
             ('C18 C05:error-is-an-invalid-name-or-a-real-fault',
              'r.is_err() ==> final(w).same_fs(*old(w)) && (!first_byte_ok(str_bytes(name)) || str_bytes(name).contains(0x2fu8) || final(w).hard_faults > old(w).hard_faults)'),
         ])
@@ -1337,9 +1342,11 @@ pub open spec fn write_frame(old: World, fin: World, base: PathV, name: Seq<u8>,
         DST = 'child(self.spec_base(), str_bytes(name))'
         exact = ('set_exact' if opname == 'set' else 'put_exact')
         f.contract(
-            requires=[('', 'old(w).inv() && (self.spec_temp() == child(self.spec_base(), temp_name()) && old(w).cache_dirs.contains(self.spec_base()) && !old(w).under_ro(self.spec_base()) && !old(w).under_ro(self.spec_temp()) && (forall|n: Seq<u8>| !old(w).under_ro(#[trigger] child(self.spec_base(), n))) && (forall|n: Seq<u8>| !old(w).under_ro(#[trigger] child(self.spec_temp(), n))))'),
+            requires=[('', 'old(w).inv()'),
+                      ('C15 C16:writes-run-on-a-configured-read-write-cache-directory',
+                       'valid_key(str_bytes(name)) ==> (self.spec_temp() == child(self.spec_base(), temp_name()) && old(w).cache_dirs.contains(self.spec_base()) && !old(w).under_ro(self.spec_base()) && !old(w).under_ro(self.spec_temp()) && (forall|n: Seq<u8>| !old(w).under_ro(#[trigger] child(self.spec_base(), n))) && (forall|n: Seq<u8>| !old(w).under_ro(#[trigger] child(self.spec_temp(), n))))'),
                       ('C01 C03:caller-hands-in-a-private-finished-file-holding-the-value-for-this-key',
-                       'value_ready(*old(w), pv(value), self.spec_base(), str_bytes(name))')],
+                       'valid_key(str_bytes(name)) ==> value_ready(*old(w), pv(value), self.spec_base(), str_bytes(name))')],
             ensures=[
                 INV, ('', 'final(w).kept_nc(*old(w))'),
                 ('C16:invalid-names-fail-with-invalid-input-and-touch-nothing',
